@@ -32,8 +32,16 @@ fn is_word(c: char) -> bool {
     c.is_alphanumeric() || c == '_' || c == '$'
 }
 
-/// Reference expander, from the statement of the property.
+/// Reference expander, from the statement of the property. Quoted text is what the TARGET ENGINE reads as quoted:
+/// '..', ".." and `..` everywhere; [..] is a bracketed identifier on SQLite, but an array subscript / constructor -
+/// ordinary punctuation - on PostgreSQL (`ARRAY[$1, $2]`, `col[$1]`). `[` is no MySQL token at all, so there the
+/// tokenizer's reading is kept.
 pub fn expand(d: Dialect, tpl: &str, nvals: usize) -> RefOut {
+    expand_with(d, tpl, nvals, d != Dialect::Postgres)
+}
+
+/// `brackets_quote`: whether [..] is read as quoted text (the dialect-blind tokenizer's reading).
+pub fn expand_with(d: Dialect, tpl: &str, nvals: usize, brackets_quote: bool) -> RefOut {
     let cs: Vec<char> = tpl.chars().collect();
     let mut out: Vec<Piece> = vec![];
     let mut text = String::new();
@@ -50,7 +58,7 @@ pub fn expand(d: Dialect, tpl: &str, nvals: usize) -> RefOut {
     while i < cs.len() {
         let c = cs[i];
         // quoted text: copied verbatim to the matching close (doubled / backslash-escaped delimiters inside)
-        if matches!(c, '\'' | '"' | '`' | '[') {
+        if matches!(c, '\'' | '"' | '`') || (c == '[' && brackets_quote) {
             let close = if c == '[' { ']' } else { c };
             text.push(c);
             i += 1;
@@ -174,7 +182,21 @@ fn inject(d: Dialect, sql: &str, vals: Vec<Value>) -> Result<String, String> {
 
 /// Ok(true) = checked, Ok(false) = out of domain
 pub fn check_one(d: Dialect, tpl: &str, nvals: usize, watch: Option<&Counter>) -> Result<bool, (String, String)> {
-    let pieces = match expand(d, tpl, nvals) {
+    let r = check_one_with(d, tpl, nvals, watch, d != Dialect::Postgres);
+    if let Err((sig, det)) = &r {
+        // the oracle names one input class itself: on PostgreSQL the real code agrees with the reference that
+        // (like the dialect-blind tokenizer) reads [..] as quoted text, i.e. a placeholder between brackets is left alone
+        if d == Dialect::Postgres && tpl.contains('[') && matches!(check_one_with(d, tpl, nvals, None, true), Ok(_)) {
+            return Err((BRACKET_SIG.into(), det.clone()));
+        }
+    }
+    r
+}
+
+pub const BRACKET_SIG: &str = "placeholder-between-brackets-not-replaced";
+
+fn check_one_with(d: Dialect, tpl: &str, nvals: usize, watch: Option<&Counter>, brackets_quote: bool) -> Result<bool, (String, String)> {
+    let pieces = match expand_with(d, tpl, nvals, brackets_quote) {
         RefOut::Pieces(p) => p,
         RefOut::OutOfDomain(_) => {
             // must still terminate without hanging; the result is not judged
@@ -226,7 +248,8 @@ pub fn check_one(d: Dialect, tpl: &str, nvals: usize, watch: Option<&Counter>) -
     // a literal mark that the engine (and inject_parameters) would read as a placeholder: a bare `?`,
     // or `$<digit>` on Postgres, outside quoted text of the expanded SQL
     let expanded: Vec<char> = want_build.chars().collect();
-    let spans = crate::props::c16::ref_spans(&expanded);
+    let spans: Vec<(usize, usize)> =
+        crate::props::c16::ref_spans(&expanded).into_iter().filter(|(a, _)| brackets_quote || expanded[*a] != '[').collect();
     let outside = |i: usize| !spans.iter().any(|(a, b)| i >= *a && i < *b);
     let mut text_positions: Vec<usize> = vec![];
     {
@@ -432,7 +455,7 @@ pub fn run(rep: &Arc<Report>) {
                         );
                         let det = check_one(d, &min.0, min.1, None).err().map(|e| e.1).unwrap_or_default();
                         rep.violation(Violation {
-                            key: format!("template|{}|{}|{}|{}", d.name(), sig, show(&min.0), min.1),
+                            key: if sig == BRACKET_SIG { format!("template|{}|{}", d.name(), sig) } else { format!("template|{}|{}|{}|{}", d.name(), sig, show(&min.0), min.1) },
                             what: format!("{}: template {:?} with {} values: {}", d.name(), min.0, min.1, det),
                             case: json!({"dialect": d.name(), "template": min.0, "nvals": min.1}),
                         });
@@ -467,7 +490,7 @@ pub fn run(rep: &Arc<Report>) {
         let s = stmt(t, k);
         rep.sample(json!({"template": t, "values": k, "dialect": d.name(), "reference": format!("{:?}", expand(d, t, k)), "build": render(d, &s).map(|x| x.1).unwrap_or_default()}));
     }
-    rep.assume("quoted text in templates follows the tokenizer's quoting rules (C16); a `$` on Postgres is a placeholder only as `$<digits>`; values are tagged integers");
+    rep.assume("quoted text in templates is '..', \"..\", `..` (doubled or backslash-escaped delimiters inside) and, except on PostgreSQL where brackets are array syntax, [..]; a `$` on Postgres is a placeholder only as `$<digits>`; values are tagged integers");
 }
 
 pub fn replay(case: &serde_json::Value) -> Option<String> {
